@@ -48,7 +48,8 @@ def get_amounts_contract(interp, args, kwargs):
     f1 = p.uf("uni_amount1", z3.IntSort(), z3.IntSort(), z3.IntSort(), z3.IntSort(), z3.RealSort())
     a = [_as_int(x) for x in (sq, ta, tb, liq)]
     r0, r1 = f0(*a), f1(*a)
-    p.assume(z3.And(r0 >= 0, r1 >= 0), "contract get_amounts: non-negative, a function of (sqrt price, ticks, liquidity) (C07)")
+    p.assume(z3.And(r0 >= 0, r1 >= 0, z3.Implies(a[3] == 0, z3.And(r0 == 0, r1 == 0))),
+             "contract get_amounts: non-negative, zero for zero liquidity, a function of (sqrt price, ticks, liquidity) (C07)")
     return SV(r0, DEC), SV(r1, DEC)
 
 
